@@ -2101,14 +2101,15 @@ GRend(int32 grid)
                     if (GRIup_attr_data(gr_ptr->hdf_file_id, attr_ptr) == FAIL)
                         HGOTO_ERROR(DFE_INTERNAL, FAIL);
                     attr_ptr->data_modified = FALSE;
+                } /* end if */
 
-                    /* check if the attribute was a new attribute */
-                    if (attr_ptr->new_at == TRUE) {
-                        if (Vaddtagref(GroupID, ATTR_TAG, (int32)attr_ptr->ref) == FAIL)
-                            HGOTO_ERROR(DFE_CANTADDELEM, FAIL);
-                        attr_ptr->new_at = FALSE;
-                    } /* end if */
-                }     /* end if */
+                /* check if the attribute was a new attribute (also one too large to be cached:
+                   its data is on disk already and not marked as modified, as for image attributes) */
+                if (attr_ptr->new_at == TRUE) {
+                    if (Vaddtagref(GroupID, ATTR_TAG, (int32)attr_ptr->ref) == FAIL)
+                        HGOTO_ERROR(DFE_CANTADDELEM, FAIL);
+                    attr_ptr->new_at = FALSE;
+                } /* end if */
 
                 /* get the next global attribute in the tree/list */
                 if (NULL != (t2 = (void **)tbbtnext((TBBT_NODE *)t2))) /* get the next node in the tree */
